@@ -173,10 +173,20 @@ def r2(ctx):
                     if qual.endswith(".close"):
                         gates = [n for n, v in f.assigns("self.is_open") if isinstance(v, ast.Constant) and v.value is False]
                         ok = bool(at) and all(any(f.cfg.dominates(gt.id, a.id) for gt in gates) for a in at)
+                        # ... and in the same step: across an await the socket may have been re-opened and have accepted messages
+                        susp = [n2 for a in at for gt in gates if f.cfg.dominates(gt.id, a.id) for n2 in f.awaits_between(gt, a)]
+                        why = "clear() while the socket is open loses accepted messages"
+                        if ok and susp:
+                            ok, why = False, f"close() suspends (line {susp[0].lineno}) between marking the socket not open and clearing the queue: a re-open during that await accepts messages that are then wiped"
                     else:
                         ts = f.tests(lambda e: dotted(e) == "self.is_open")
                         ok = bool(at) and bool(ts) and all(any(f.cfg.dominates(f.branch(t, "false").id, a.id) for t in ts) for a in at)
-                    ctx.check(ok, R, f"{where}:_message_queue.clear", m, parent, "pending messages are discarded only once the socket is no longer open (close() after is_open = False, or open_socket() on a closed socket)", "clear() while the socket is open loses accepted messages")
+                        why = "clear() while the socket is open loses accepted messages"
+                        if ok:
+                            susp = [n2 for a in at for t in ts for n2 in f.awaits_between(t, a)]
+                            if susp:
+                                ok, why = False, "open_socket() suspends between the not-open test and clearing the queue"
+                    ctx.check(ok, R, f"{where}:_message_queue.clear", m, parent, "pending messages are discarded only once the socket is no longer open and before anything is awaited (close() right after is_open = False, or open_socket() on a closed socket)", why)
                     continue
                 if ok:
                     seen[meth] += 1
@@ -429,7 +439,7 @@ def r6(ctx):
         params = [a.arg for a in cfm.args.args][1:]
         try:
             mini.run(init.body, {})
-            ids, seen = [], set()
+            ids, seen, handed = [], set(), []
             while True:
                 state = tuple(sorted((k, v) for k, v in mini.selfattrs.items() if isinstance(v, (int, float, bool, str, type(None)))))
                 if state in seen or len(seen) > 70000:
@@ -437,8 +447,14 @@ def r6(ctx):
                 seen.add(state)
                 hdr = mini.function_value(cfm, {params[0]: FakeObj("Message", message_id=0x2A), params[1]: 4})
                 ids.append(getattr(hdr, "packet_id", None) if isinstance(hdr, FakeObj) else None)
+                if len(handed) < 8:
+                    handed.append(hdr)
         except Unsupported as ex:
             raise AnalysisError(f"{m.relpath}: HeaderFactory left the evaluable fragment: {ex}")
         bad = sorted({x for x in ids if not isinstance(x, int) or isinstance(x, bool) or x < 0 or x >= limit}, key=repr)
         ctx.check(not bad and len(seen) <= 70000, R, f"{gen}:HeaderFactory._packet_id:range", m, cfm, f"every id handed out fits the {size}-byte packet_id slot [0,{limit - 1}]", f"ids handed out include {bad[:3]} ({len(seen)} counter states explored)" if bad else f"{len(seen)} states (unbounded)")
+        # a header is held by the pending queue until it is written: each call must hand out its own object (a shared, re-used header
+        # object would be overwritten by the next message while the earlier one is still queued)
+        shared = len({id(h) for h in handed}) != len(handed)
+        ctx.check(not shared, R, f"{gen}:HeaderFactory.create_from_message:fresh-header", m, cfm, "every call returns a new header object (queued frames keep their own id, length and address)", "successive calls return the same object, which is modified in place")
         ctx.check(ids == list(range(limit)), R, f"{gen}:HeaderFactory._packet_id:sequence", m, cfm, f"ids are handed out as 0, 1, ..., {limit - 1} and then start again", f"{len(ids)} ids before the counter state repeats, starting {ids[:4]}")
